@@ -43,7 +43,12 @@ def run(rep, info, model, tier, seed):
     conc.run_programs(rep, model, "C11", "C11:3-threads", three, bound=(2 if tier == "quick" else 3), limit=(2500 if tier == "quick" else 60000), which="c11")
     # source-line granularity: the action-level reduction assumes that what happens between two shared actions is local
     line_sets = [s for s in two if s[1] in (None, "takeover", "no_takeover")][:6] if tier == "quick" else two
-    conc.run_programs_lines(rep, "C11", "C11:line-level", line_sets, limit=(150 if tier == "quick" else 1500), which="c11")
+    # one buffer object handed to two threads at once (the API takes bytes; whatever it accepts must go out as it was)
+    ba = bytearray(b"heartbeat " * 4)
+    shared_buf = [([[("send", "binary", ba, False, 1, bytes(ba))], [("send", "binary", ba, False, 2, bytes(ba))]], None),
+                  ([[("send", "binary", ba, False, 1, bytes(ba)), ("send", "ping", b"pp", False, 90)], [("send", "binary", ba, False, 2, bytes(ba))]], None)]
+    conc.run_programs_lines(rep, "C11", "C11:line-level", line_sets + shared_buf, limit=(150 if tier == "quick" else 1500), which="c11")
+    conc.run_programs_fresh(rep, "C11:first-execution", line_sets[:2] if tier == "quick" else line_sets, per=(24 if tier == "quick" else 80), which="c11")
     if not proof_ok and not rep.violations:
         rep.broken("proof obligation props/C11.v no longer checks: %s" % (rep.coq_failure,))
 
@@ -51,8 +56,19 @@ def run(rep, info, model, tier, seed):
 def replay(body):
     from . import sched
     sc = body["scenario"]
-    progs = [[tuple(bytes.fromhex(x) if isinstance(x, str) and i == 2 and c[0] in ("send", "close", "server_close") else x for i, x in enumerate(c)) for c in p] for p in sc["programs"]]
-    out = sched.run_schedule(progs, sc["schedule"], sc["compression"], lines=bool(sc.get("lines")))
+    shared = {}
+
+    def arg(c, i, x):
+        if isinstance(x, dict) and "shared_bytearray" in x:
+            return shared.setdefault(x["shared_bytearray"], bytearray(bytes.fromhex(x["shared_bytearray"])))
+        if isinstance(x, str) and i in (2, 5) and c[0] in ("send", "close", "server_close"):
+            return bytes.fromhex(x)
+        return x
+    progs = [[tuple(arg(c, i, x) for i, x in enumerate(c)) for c in p] for p in sc["programs"]]
+    if sc.get("fresh"):
+        out = conc._one_fresh((progs, sc["schedule"], sc["compression"]))
+    else:
+        out = sched.run_schedule(progs, sc["schedule"], sc["compression"], lines=bool(sc.get("lines")))
     c11, c12 = conc.judge(progs, out, sc["compression"])
     print("wire:", [(t, b.hex()[:40]) for t, b in out["wire"]], "results:", out["results"])
     print("REPLAY:", ("VIOLATION reproduced: %s" % c11[0]) if c11 else "property holds on this schedule")
